@@ -109,7 +109,8 @@ def text_of(toks, style):
                 sep = seps[(style + j) % len(seps)] if style % 5 != 0 else " "
             out.append(sep)
         out.append(s)
-    return "".join(out)
+    # a comment may end the text without a line break after it
+    return "".join(out) + (" // c" if style % 7 == 3 else "")
 
 
 def has_empty_list(t):
